@@ -1,5 +1,10 @@
 package vp8l
 
+import (
+	"image"
+	"io"
+)
+
 // Shims of ours (not part of x/image) exporting the unexported kernels to the harnesses.
 
 // VerifInverse applies one inverse transform of the reference decoder.
@@ -25,4 +30,38 @@ func VerifSelect(lp, tp, cp [4]uint8) [4]uint8 {
 		return lp
 	}
 	return tp
+}
+
+// vBytes is a minimal io.ByteReader over a byte slice (ours).
+type vBytes struct {
+	b []byte
+	i int
+}
+
+func (r *vBytes) ReadByte() (byte, error) {
+	if r.i >= len(r.b) {
+		return 0, io.EOF
+	}
+	c := r.b[r.i]
+	r.i++
+	return c, nil
+}
+
+func (r *vBytes) Read(p []byte) (int, error) {
+	if r.i >= len(r.b) {
+		return 0, io.EOF
+	}
+	n := copy(p, r.b[r.i:])
+	r.i += n
+	return n, nil
+}
+
+// VerifDecodeBytes runs the reference decoder on a complete VP8L stream.
+func VerifDecodeBytes(data []byte) (pix []byte, w, h int, err error) {
+	img, err := Decode(&vBytes{b: data})
+	if err != nil {
+		return nil, 0, 0, err
+	}
+	n := img.(*image.NRGBA)
+	return n.Pix, n.Rect.Dx(), n.Rect.Dy(), nil
 }
